@@ -28,7 +28,7 @@ def _quintant_cells(c):
 
 
 def expected_digest(cells, R):
-    """(n, sum mod 2^64, xor) of the descendants at resolution R of the listed cells (each counted as often as it is listed)"""
+    """(n, exact sum, xor) of the descendants at resolution R of the listed cells (each counted as often as it is listed)"""
     n = s = 0
     x = 0
     for c in cells:
@@ -51,7 +51,7 @@ def expected_digest(cells, R):
             # xor of an arithmetic run first + i*st, i < 4^k: the varying bits form a full counter => they cancel when m >= 2 (m even),
             # and the fixed bits appear m times (even) => 0; for m == 1 it is the id itself
             x ^= first if m == 1 else 0
-    return n, s & M64, x
+    return n, s, x
 
 
 def list_digest(cells):
@@ -59,7 +59,7 @@ def list_digest(cells):
     for c in cells:
         s += c
         x ^= c
-    return len(cells), s & M64, x
+    return len(cells), s, x
 
 
 def parse_digest(a):
